@@ -290,3 +290,76 @@ Proof.
     replace ((p * P + w * C) / q - B) with (P - B - s * (P - C)) by (unfold s, q; field; lra).
     reflexivity.
 Qed.
+
+(* ------------------------------------------------------------------ *)
+(* 4. (iii) in three dimensions: the (u, r)-integrand at fixed u       *)
+(* ------------------------------------------------------------------ *)
+Definition dist2 (Cx Cy Cz x y z : R) : R := (x - Cx) ^ 2 + (y - Cy) ^ 2 + (z - Cz) ^ 2.
+
+(* (2/sqrt PI) phi_a(r) phi_b(r) exp(-u^2 |r-C|^2): its u-integral over [0,oo) is phi_a phi_b / |r-C| (r <> C) *)
+Definition coulomb_kernel (Cx Cy Cz Ax Ay Az Bx By Bz al be : R) (ca cb : Shell.comp) (u x y z : R) : R :=
+  2 / sqrt PI * (cprim al Ax Ay Az ca x y z * cprim be Bx By Bz cb x y z)
+  * exp (- u ^ 2 * dist2 Cx Cy Cz x y z).
+
+(* the Coulomb integrand itself (Coq's x / 0 = 0 at the single point r = C) *)
+Definition coulomb_integrand (Cx Cy Cz Ax Ay Az Bx By Bz al be : R) (ca cb : Shell.comp) (x y z : R) : R :=
+  cprim al Ax Ay Az ca x y z * cprim be Bx By Bz cb x y z / sqrt (dist2 Cx Cy Cz x y z).
+
+(* the product over the axes of the per-s Gaussian moments: the polynomial in s of DESIGN.md 2.4,
+   literally the factor of the integrand of BoysBridge.prim_val_is_t_integral (at s = t^2) *)
+Definition Gprod (Cx Cy Cz Ax Ay Az Bx By Bz al be : R) (ca cb : Shell.comp) (s : R) : R :=
+  let p := al + be in
+  let Px := (al * Ax + be * Bx) / p in let Py := (al * Ay + be * By) / p in
+  let Pz := (al * Az + be * Bz) / p in
+  let v := 1 / ((1 + 1) * p) in
+  S3 RKB (v * (1 - s)) (Px - Ax - s * (Px - Cx)) (Px - Bx - s * (Px - Cx)) 0 0 0
+     (fst (fst ca)) (fst (fst cb))
+  * S3 RKB (v * (1 - s)) (Py - Ay - s * (Py - Cy)) (Py - By - s * (Py - Cy)) 0 0 0
+       (snd (fst ca)) (snd (fst cb))
+  * S3 RKB (v * (1 - s)) (Pz - Az - s * (Pz - Cz)) (Pz - Bz - s * (Pz - Cz)) 0 0 0
+       (snd ca) (snd cb).
+
+(* the value of the iterated integral over R^3 of the kernel at fixed u *)
+Definition Ju (Cx Cy Cz Ax Ay Az Bx By Bz al be : R) (ca cb : Shell.comp) (u : R) : R :=
+  let p := al + be in
+  let Px := (al * Ax + be * Bx) / p in let Py := (al * Ay + be * By) / p in
+  let Pz := (al * Az + be * Bz) / p in
+  let mu := al * be / p in
+  let ab2 := (Ax - Bx) * (Ax - Bx) + (Ay - By) * (Ay - By) + (Az - Bz) * (Az - Bz) in
+  let pc2 := (Px - Cx) * (Px - Cx) + (Py - Cy) * (Py - Cy) + (Pz - Cz) * (Pz - Cz) in
+  let q := p + u ^ 2 in let s := u ^ 2 / q in
+  2 / sqrt PI * (PI / q * sqrt (PI / q)) * exp (- (mu * ab2)) * exp (- (p * pc2) * s)
+  * Gprod Cx Cy Cz Ax Ay Az Bx By Bz al be ca cb s.
+
+Theorem gaussian_at_fixed_u (Cx Cy Cz Ax Ay Az Bx By Bz al be : R) (ca cb : Shell.comp) (u : R) :
+  0 < al -> 0 < be ->
+  gint3 (coulomb_kernel Cx Cy Cz Ax Ay Az Bx By Bz al be ca cb u)
+        (Ju Cx Cy Cz Ax Ay Az Bx By Bz al be ca cb u).
+Proof.
+  intros Ha Hb. assert (Hw : 0 <= u ^ 2) by apply pow2_ge_0.
+  pose proof (three_gauss_1d_model al be (u ^ 2) Ax Bx Cx (cx ca) (cx cb) Ha Hb Hw) as Hx.
+  pose proof (three_gauss_1d_model al be (u ^ 2) Ay By Cy (cy ca) (cy cb) Ha Hb Hw) as Hy.
+  pose proof (three_gauss_1d_model al be (u ^ 2) Az Bz Cz (cz ca) (cz cb) Ha Hb Hw) as Hz.
+  cbv zeta in Hx, Hy, Hz.
+  refine (gint3_ext _ _ _ _ _ _ (gint3_scal (2 / sqrt PI) _ _ (gint3_prod _ _ _ _ _ _ Hx Hy Hz))).
+  - intros x y z. unfold coulomb_kernel, dist2. rewrite !cprim_split.
+    replace (- u ^ 2 * ((x - Cx) ^ 2 + (y - Cy) ^ 2 + (z - Cz) ^ 2))
+      with (- u ^ 2 * (x - Cx) ^ 2 + - u ^ 2 * (y - Cy) ^ 2 + - u ^ 2 * (z - Cz) ^ 2) by ring.
+    rewrite !exp_plus. ring.
+  - unfold Ju, Gprod. cbv zeta. unfold cx, cy, cz.
+    set (p := al + be). set (q := p + u ^ 2). set (s := u ^ 2 / q).
+    set (Px := (al * Ax + be * Bx) / p). set (Py := (al * Ay + be * By) / p).
+    set (Pz := (al * Az + be * Bz) / p). set (mu := al * be / p).
+    assert (Hq : 0 < q) by (unfold q, p; lra).
+    assert (E1 : exp (- (mu * ((Ax - Bx) * (Ax - Bx) + (Ay - By) * (Ay - By) + (Az - Bz) * (Az - Bz))))
+                 = exp (- mu * (Ax - Bx) ^ 2) * exp (- mu * (Ay - By) ^ 2) * exp (- mu * (Az - Bz) ^ 2)).
+    { rewrite <- !exp_plus. f_equal. ring. }
+    assert (E2 : exp (- (p * ((Px - Cx) * (Px - Cx) + (Py - Cy) * (Py - Cy) + (Pz - Cz) * (Pz - Cz))) * s)
+                 = exp (- (p * s) * (Px - Cx) ^ 2) * exp (- (p * s) * (Py - Cy) ^ 2)
+                   * exp (- (p * s) * (Pz - Cz) ^ 2)).
+    { rewrite <- !exp_plus. f_equal. ring. }
+    assert (E3 : PI / q = sqrt (PI / q) * sqrt (PI / q)).
+    { symmetry. apply sqrt_sqrt. apply Rlt_le, Rdiv_lt_0_compat; [apply PI_RGT_0 | exact Hq]. }
+    set (r := sqrt (PI / q)) in *.
+    rewrite E1, E2, E3. ring.
+Qed.
